@@ -68,7 +68,7 @@ def curated():
                   [L("L1", "A", "X", 1), L("L2", "B", "X", 1), L("L3", "X", "P", 1, (0,)), L("L4", "X", "Q", 1)],
                   {"A": ("O1", "main"), "B": ("O2", "ramp_out")}, {"P": ("D1", "free"), "Q": ("D2", "cong")}))
     # 16 ideal-origin chain of three links, VSL without limited segment
-    K.append(Topo("k16_ideal_chain", ["A", "B", "C", "D"], [L("L1", "A", "B", 1), L("L2", "B", "C", 2, ()), L("L3", "C", "D", 1)],
+    K.append(Topo("k16_ideal_chain", ["A", "B", "C", "D"], [L("L1", "A", "B", 1), L("L2", "B", "C", 2, ()), L("L3", "C", "D", 1, ())],
                   {"A": ("O1", "ideal")}, {"D": ("D1", "free")}, phi=True))
     # 17 bifurcation downstream of a merge, ramp at the bifurcation node (1 in, 2 out is forbidden with origin -> ramp at merge)
     K.append(Topo("k17_merge_then_bif", ["A", "B", "M", "X", "P", "Q"],
